@@ -157,7 +157,7 @@ func c17Rules(p *core.Prog, r *core.Run) {
 		}
 		switch {
 		case st.Parent() == m.dial:
-			pub := core.HasFact(fs, "!=", `p0\.PublicName`, `""`)
+			pub := core.HasFact(fs, ">", `len\(p0\.PublicName\)`, `0`)
 			fromCfg := v.Op == "ext" && v.Args[0].Name == "ech.ConfigList"
 			r.Check("C17.KEEP", "Dial:bootstrap-list", needECH && pub && fromCfg, p.InstrPos(st), "the PublicName bootstrap list is installed only when the caller supplied none (%v) and PublicName is set (%v)", needECH, pub)
 			needECHok = needECH
@@ -197,7 +197,7 @@ func c17Rules(p *core.Prog, r *core.Run) {
 	for _, st := range storesTo(p, all, "ServerName") {
 		nSNI++
 		v := p.X(st.Val)
-		empty := core.HasFact(p.Facts(st.Block()), "==", `.*\.ServerName`, `""`)
+		empty := core.HasFact(p.Facts(st.Block()), "==", `len\(.*\.ServerName\)`, `0`)
 		host := v.Op == "field" && v.Name == "host"
 		r.Check("C17.SNI", "worker:server-name", st.Parent() == m.worker && empty && host, p.InstrPos(st), "ServerName is set only when the caller left it empty (%v), to the dial target's host (%v)", empty, host)
 	}
